@@ -145,15 +145,18 @@ def ptr_offsets(tab, t, size):
 
 # ------------------------------------------------------------------------------------------------
 # projections
-def expected_rel(rels):
-    """canonical relocation set: (offset, 'sym+add') or (offset, 'anon:<bytes from the target up to NUL>')."""
+def expected_rel(rels, full=False):
+    """canonical relocation set: (offset, 'sym+add') or, for unnamed targets (string / compound literals),
+    (offset, 'anon:<bytes from the target up to NUL>'); full=True: '<all bytes from the target to the end of the object>'
+    (what the data definition of the compiler under test must contain, terminating NUL included)."""
     out = set()
     for r in rels:
         if r["sym"]:
             out.add((r["off"], "%s+%d" % (r["sym"], r["add"])))
         else:
             tail = r["obj"][r["add"]:]
-            tail = tail[:tail.index(0)]
+            if not full:
+                tail = tail[:tail.index(0)]
             out.add((r["off"], "anon:" + bytes(tail).hex()))
     return out
 
@@ -170,15 +173,13 @@ def observed_rel(mod, rel):
                 out.add((off, "undefined:" + sym))
                 continue
             img, r2 = ilparse.data_image(d)
-            tail = img[add:]
-            tail = tail[:tail.index(0)] if 0 in tail else tail
-            out.add((off, "anon:" + bytes(tail).hex()))
+            out.add((off, "anon:" + bytes(img[add:]).hex()))
         else:
             out.add((off, "%s+%d" % (sym, add)))
     return out
 
 
-def compare(case, size, align, img, rel, tab, want_img=None, want_rel=None):
+def compare(case, size, align, img, rel, tab, want_img=None, want_rel=None, full=True):
     """None when the observed projection is the expected one, else a short reason."""
     exp_img = case["img"] if want_img is None else want_img
     if size != case["size"]:
@@ -189,8 +190,8 @@ def compare(case, size, align, img, rel, tab, want_img=None, want_rel=None):
     for k in range(size):
         if (img[k] ^ exp_img[k]) & ~unc[k] & 0xff:
             return "byte %d: %d != %d" % (k, img[k], exp_img[k])
-    must = expected_rel(case["rel"] if want_rel is None else want_rel)
-    may = must | (expected_rel(case["optrel"]) if want_rel is None else set())
+    must = expected_rel(case["rel"] if want_rel is None else want_rel, full)
+    may = must | (expected_rel(case["optrel"], full) if want_rel is None else set())
     if not (must <= rel and rel <= may):
         return "relocations %s != %s" % (sorted(rel), sorted(must))
     return None
@@ -207,12 +208,12 @@ def run_static(ctx, tab, cases, objdir):
     results = vlib.pmap(one, cases, workers=16)
     notex = ctx.cov.setdefault("deviation_predicted_but_not_exhibited", {})
     for case, (src, rc, out, err) in zip(cases, results):
-        key = case["ty"] + " " + " ".join(case["toks"])
+        key = case_key(case)
         nontrivial = len(case["toks"]) > 1
         ctx.count(key, nontrivial=nontrivial)
         fired = sorted(case["sfired"])
         info = {"type": case["ty"], "tokens": case["toks"], "source": render_decl(tab, case, "x"),
-                "expected": {"size": case["size"], "bytes": case["img"], "rel": sorted(expected_rel(case["rel"]))},
+                "expected": {"size": case["size"], "bytes": case["img"], "rel": sorted(expected_rel(case["rel"], True))},
                 "model": {"status": case["mst"], "fired": fired, "bytes": case["mimg"]}, "case": case}
         obs = None
         if rc == 0:
@@ -322,7 +323,7 @@ def gcc_audit_chunk(ctx, tab, cases, tag):
             if r:
                 off, tgt = r.split(":", 1)
                 rel.add((int(off), tgt))
-        why = compare(c, size, align, img, rel, tab)
+        why = compare(c, size, align, img, rel, tab, full=False)
         if why:
             raise vlib.MachineryError("SPEC-AUDIT: gcc disagrees with Init.tla on `%s`: %s (gcc bytes %s rel %s; spec bytes %s)"
                                       % (render_decl(tab, c, "x"), why, img, sorted(rel), c["img"]))
@@ -407,17 +408,33 @@ def private_build(ctx, flavour):
     raise vlib.MachineryError("cannot obtain a %s build of cproc-qbe" % flavour)
 
 
-def emit_cases(ctx, cfg, **kw):
-    r = ctx.tlc_must_pass("Init", cfg, **kw)
+def case_key(c):
+    return c["ty"] + " " + " ".join(c["toks"]) + " | " + " ".join(e["c"] for e in c["ex"])
+
+
+def emit_cases(ctx, cfg, must_pass=True, **kw):
+    r = ctx.tlc_must_pass("Init", cfg, **kw) if must_pass else ctx.tlc("Init", cfg, **kw)
+    if not must_pass and r.rc != 0:
+        raise vlib.MachineryError("model Init/%s rejected (rc=%d):\n%s" % (cfg, r.rc, r.out[-5000:]))
     cases = [json.loads(v) for v in r.vcases]
-    # one case per token sequence
     seen, out = set(), []
-    for c in cases:
-        k = c["ty"] + " " + " ".join(c["toks"])
+    for c in cases:                      # one case per rendered initializer
+        k = case_key(c)
         if k not in seen:
             seen.add(k)
             out.append(c)
     return r, out
+
+
+def merge(*lists):
+    seen, out = set(), []
+    for l in lists:
+        for c in l:
+            k = case_key(c)
+            if k not in seen:
+                seen.add(k)
+                out.append(c)
+    return out
 
 
 def phase(ctx, name, t0):
@@ -444,6 +461,16 @@ def run(ctx):
     # (b) behaviours for flow A, deviations on
     r, cases = emit_cases(ctx, "MC_Init_emit_%s.cfg" % tier, workers=8 if ctx.quick else 12, timeout=1500,
                           heap="3g" if ctx.quick else "8g")
+    ctx.cov["exhaustive_cases"] = len(cases)
+    if not ctx.quick:
+        # the same machine without pruning (error paths of the parser), other value / address tables, and a random
+        # sample of long initializers (up to 12 tokens)
+        ctx.tlc_must_pass("Init", "MC_Init_unpruned.cfg", workers=8, timeout=1500, heap="4g")
+        _, c3 = emit_cases(ctx, "MC_Init_emit_salt3.cfg", workers=8, timeout=900, heap="3g")
+        _, c5 = emit_cases(ctx, "MC_Init_emit_salt5.cfg", workers=8, timeout=900, heap="3g")
+        _, cs = emit_cases(ctx, "MC_Init_emit_sim.cfg", workers=4, simulate=3000, depth=80, timeout=1500, heap="3g")
+        ctx.cov["sampled_long_cases"] = len(cs)
+        cases = merge(cases, c3, c5, cs)
     # vacuity: every action of the machine and every branch of initadd's scan lies on the path of some valid case
     # (TLC's own -coverage does not terminate on this spec; the machine records the names itself)
     taken = set()
